@@ -500,6 +500,147 @@ func (g *c02) certSPKI(tag string, pub any, spec Sx) {
 	}))
 }
 
+// ---------- the subject key of a certificate, through file.Inspect ----------
+
+func findChild(i file.Info, desc string) (file.Info, bool) {
+	for _, ch := range i.Children {
+		if ch.Description == desc {
+			return ch, true
+		}
+		if f, ok := findChild(ch, desc); ok {
+			return f, true
+		}
+	}
+	return file.Info{}, false
+}
+
+// certkey: a certificate written by certDER around spki, presented as a DER file, a PEM file and a
+// trusted-certificate entry of a Java keystore; observation = the "Public key" child.
+func (g *c02) certkey(tag string, spki []byte, spec Sx) {
+	r := g.c.R
+	version := []int{1, 3}[r.Intn(2)]
+	der := certDER(version, new(big.Int).SetBytes(append([]byte{1}, r.Bytes(8)...)), "C02 issuer", "C02 "+tag, spki, r.Bytes(64))
+	if _, err := x509.ParseCertificate(der); err != nil {
+		fmt.Fprintln(os.Stderr, "certkey: crypto/x509 rejects the certificate for", tag, ":", err)
+		return
+	}
+	oracle := oracleSPKI(spki)
+	frames := []struct {
+		name, file string
+		data       []byte
+	}{
+		{"der", "cert.der", der},
+		{"pem", "cert.pem", pem.EncodeToMemory(&pem.Block{Type: "CERTIFICATE", Bytes: der})},
+		{"jks", "store.jks", jksOf([]string{"c02"}, []int64{1700000000000}, [][]byte{der}, r)},
+	}
+	for _, f := range frames {
+		g.nfile++
+		d := filepath.Join(g.dir, fmt.Sprintf("c%d", g.nfile))
+		os.MkdirAll(d, 0o755)
+		p := filepath.Join(d, f.file)
+		if err := os.WriteFile(p, f.data, 0o644); err != nil {
+			continue
+		}
+		obs := guard(func() Sx {
+			fh, err := os.Open(p)
+			if err != nil {
+				return ObsErr()
+			}
+			defer fh.Close()
+			i, _ := file.Inspect(fh)
+			ch, ok := findChild(i, "Public key")
+			if !ok {
+				return ObsErr()
+			}
+			return ObsOk(InfoSx(ch))
+		})
+		g.c.Emit("certkey:"+f.name+"-"+tag, SL{SB(spki), oracle, S(f.name), spec}, obs)
+		os.RemoveAll(d)
+	}
+}
+
+func (g *c02) certKeys() {
+	r := g.c.R
+	lengths := []int{1023, 1024, 1025, 1031, 2047, 2049, 257 + r.Intn(8), 3000 + r.Intn(1100)}
+	if g.c.Thorough() {
+		for l := 512; l < 1100; l += 13 {
+			lengths = append(lengths, l)
+		}
+	}
+	for i, l := range lengths {
+		k := genRSA(r, l, i%5)
+		g.certkey(fmt.Sprintf("rsa-%d", l), spkiRSA(k), specSx("RSA", k.N, "", "", nil, nil))
+	}
+	for i, l := range []int{1024, 2047, 2048} {
+		k := genDSA(r, l, 4-i)
+		g.certkey(fmt.Sprintf("dsa-%d", l), spkiDSA(k), specSx("DSA", k.P, "", "", nil, nil))
+	}
+	for _, b := range []int{224, 256, 384, 521} {
+		k := genEC(r, b)
+		g.certkey("ec-"+k.nist, spkiEC(k, false), specSx("ECDSA", nil, "Curve", k.nist, nil, nil))
+	}
+	for _, c := range []struct {
+		alg, name string
+		oid       []int
+		size      int
+	}{{"EdDSA", "Ed25519", oidEd25519, 32}, {"EdDSA", "Ed448", oidEd448, 57}, {"ECDH", "X25519", oidX25519, 32}, {"ECDH", "X448", oidX448, 56}} {
+		g.certkey(c.name, spkiRaw(c.oid, r.Bytes(c.size)), specSx(c.alg, nil, "Curve", c.name, nil, nil))
+	}
+}
+
+// ---------- OpenPGP key blocks ----------
+
+// pgpkey: an armored public key block (primary key, one user ID, a verifying self-signature; key
+// material from the committed pool, packets by the writer of pgpw.go) through file.Inspect;
+// observation = description and the Algorithm / Size / Curve attributes of the primary key.
+func (g *c02) pgpkey(tag string, primary *pkey, n *big.Int, alg string, sub *Rng) {
+	b := newEnt(primary, false, sub, func() int { return 0 })
+	id := b.uid("C02 " + tag + " <c02@example.org>")
+	o := selfSigOpts(primary, 8, primary.created+60, 0x03, nil)
+	b.cert(id, nil, o, true)
+	g.nfile++
+	d := filepath.Join(g.dir, fmt.Sprintf("p%d", g.nfile))
+	os.MkdirAll(d, 0o755)
+	p := filepath.Join(d, "key.asc")
+	if err := os.WriteFile(p, pgpArmor(false, b.stream, nil, 64, true), 0o644); err != nil {
+		return
+	}
+	obs := guard(func() Sx {
+		fh, err := os.Open(p)
+		if err != nil {
+			return ObsErr()
+		}
+		defer fh.Close()
+		i, _ := file.Inspect(fh)
+		if !strings.HasPrefix(i.Description, "GPG/PGP") {
+			return ObsErr()
+		}
+		var facts []file.Attribute
+		for _, a := range i.Attributes {
+			if a.Name == "Algorithm" || a.Name == "Size" || a.Name == "Curve" {
+				facts = append(facts, a)
+			}
+		}
+		return ObsOk(InfoSx(file.Info{Description: i.Description, Attributes: facts}))
+	})
+	os.RemoveAll(d)
+	g.c.Emit("pgpkey:"+tag, SL{SB(primary.body()), specSx(alg, n, "", "", nil, nil)}, obs)
+}
+
+func (g *c02) pgpKeys() {
+	for i, e := range pgpPool.RSA {
+		if !g.c.Thorough() && e.Bits > 2100 {
+			continue
+		}
+		n := new(big.Int).Mul(hexBig(e.P), hexBig(e.Q))
+		g.pgpkey(fmt.Sprintf("rsa-%d", n.BitLen()), newRSAKey(i, 1, 1500000000+uint32(i)), n, "RSA", NewRng(uint64(0xC02000+i)))
+	}
+	for i, e := range pgpPool.DSA {
+		sub := NewRng(uint64(0xC02D00 + i))
+		g.pgpkey(fmt.Sprintf("dsa-%d", e.L), newDSAKey(i, 1500000100+uint32(i), sub), hexBig(e.P), "DSA", sub)
+	}
+}
+
 // ---------- end to end through file.Inspect ----------
 
 func (g *c02) e2e(e emitted) {
@@ -1025,6 +1166,15 @@ func genC02(c *Ctx) {
 	// K1 (third party, x/crypto/ssh ParseKnownHosts): a known_hosts entry whose comment has three words is rejected
 	g.knownhosts("long-comment", []byte("example.org ssh-ed25519 "+base64.StdEncoding.EncodeToString(ed)+" one two three"),
 		specSx("EdDSA", nil, "Curve", "Ed25519", []kv{{"Hosts", "example.org"}, {"Type", "ssh-ed25519"}, {"Comment", "one two three"}}, nil))
+	// the subject key of a certificate is described from its SubjectPublicKeyInfo: Ed448 / X448 too
+	g.certkey("corpus-ed448", spkiRaw(oidEd448, bytes.Repeat([]byte{0x44}, 57)), specSx("EdDSA", nil, "Curve", "Ed448", nil, nil))
+	g.certkey("corpus-x448", spkiRaw(oidX448, bytes.Repeat([]byte{0x48}, 56)), specSx("ECDH", nil, "Curve", "X448", nil, nil))
+	// OpenPGP: a 1025-bit RSA modulus is 1025 bits
+	{
+		e := pgpPool.RSA[1]
+		n := new(big.Int).Mul(hexBig(e.P), hexBig(e.Q))
+		g.pgpkey("corpus-rsa-1025", newRSAKey(1, 1, 1500000000), n, "RSA", NewRng(0xC02))
+	}
 	g.valid = nil
 
 	// ---- fixtures of the repository ----
@@ -1096,6 +1246,8 @@ func genC02(c *Ctx) {
 		g.edwards()
 	}
 	g.cryptoKeys()
+	g.certKeys()
+	g.pgpKeys()
 
 	// ---- PKCS#8 / SPKI with an algorithm the describers do not know: nothing is claimed ----
 	g.der("pkcs8", "unknown-alg", derSeq(derSmall(0), derSeq(derOID(1, 2, 840, 113549, 1, 1, 10)), derOctets(r.Bytes(40))), noSpec)
